@@ -27,6 +27,7 @@ TStep == /\ Ev.e = "Step"
          /\ Ev.mono = TRUE                           \* monotone approach, no overshoot
          /\ Ev.n10 >= 0 /\ Ev.n90 >= Ev.n10
          /\ RiseOK(Ev.n10, Ev.n90, Ev.fs, Ev.t_us)
+         /\ (Ev.tau_ppm >= 0) => (Ev.tau_ppm >= 990000 /\ Ev.tau_ppm <= 1010000)   \* the configured time constant, to 1 %
 (* AGC: never above max_gain; when the required gain is below max_gain (0.5 dB margin) the output power is
    within 1 % of the target *)
 TAgc == /\ Ev.e = "Agc"
